@@ -51,8 +51,10 @@ def _job(args):
     c = reg.contracts[idx]
     t0 = time.time()
     import signal
+    from pyvc import contract as _cm
+    _cm.KNOWN_OPEN = {k['obligation'] for k in load_known() if k.get('status', 'open') == 'open'}
 
-    class Budget(Exception):
+    class Budget(BaseException):
         pass
 
     def on_alarm(signum, frame):
@@ -151,6 +153,7 @@ def report(prop, tier, seed, results, extra, trusted, t0, rebaseline, verbose):
     names = {o['name'] for o in obligations}
     res_status = {o['name']: o['status'] for o in obligations}
     violations = []
+    skipped = []
     known_lines = []
     discharged = 0
     counted = 0
@@ -166,6 +169,9 @@ def report(prop, tier, seed, results, extra, trusted, t0, rebaseline, verbose):
             continue
         if st == 'vacuous':
             problems['selfcheck'].append((o['name'], 'vacuous: %s' % o['kind']))
+            continue
+        if st == 'skipped':
+            skipped.append(o['name'])
             continue
         kf = [k for k in known if k['obligation'] == o['name'] and k.get('status', 'open') == 'open']
         if kf and res_status.get(o['name'] + '#residual') == 'proved':
@@ -238,6 +244,7 @@ def report(prop, tier, seed, results, extra, trusted, t0, rebaseline, verbose):
             'unverifiable': [{'function': t, 'reason': why} for t, why in problems['unverifiable'] + problems['missing']],
             'undecided': [o['name'] for o in problems['undecided']],
             'refuted': [o['name'] for o in problems['refuted']],
+            'not_examined_after_three_failures_in_the_function': skipped,
             'extraction': 'functions are read from %s on every run with ast; dropped: docstrings, comments, the effect of logging '
                           'calls (arguments still evaluated), the keywords async/await' % source.PKG_DIR,
             'obligation_list': sorted(names),
